@@ -42,7 +42,7 @@ type Case struct {
 var checker = &vk.Checker[Case]{
 	ID: "C19",
 	Rule: fmt.Sprintf("%d call kinds covering the quantifier's list (bitmap Rank64/Rank128/Select32/Select32R64/index builders/NextOne/PrevOne/Slice/ToArray/Getw/Get*/SafeGet*/FromStr32/Join/Of, bmtree PathToIndex/Loose/IndexToPath/AllPaths/Decode/PathOf/PathsOf/path accessors, bitstr New/Len/Cmp/CmpUpto/StrCmpUpto, bitword FromStr(s)/ToStr(s)/Get/FirstDiff, sigbits FirstDiffBits/New+CountPrefixes/ShardByPrefix) with in-domain generated arguments. ", len(funcs)) +
-		"'call' cases: every slice argument (also the prebuilt indexes) is a window into a larger array with canaries before it and in its spare capacity, every string a fresh heap string, []string lists have canary neighbours; all are compared with snapshots after the call (1: arguments unchanged); package tables are compared with independently computed values, with the start-up snapshot of the unexported tables (verif hook) and behaviourally through Select32 / IndexToPath (2: tables unchanged); the call is repeated after a batch of unrelated calls and with relocated arguments (3: result depends only on arguments). " +
+		"'call' cases: every slice argument (also the prebuilt indexes) is a window into a larger array with canaries before it and in its spare capacity, every string a fresh heap string, []string lists have canary neighbours; all are compared with snapshots after the call (1: arguments unchanged); package tables are compared with independently computed values, with the start-up snapshot of the unexported tables (verif hook) and behaviourally through Select32 / IndexToPath (2: tables unchanged); the call is repeated after a batch of unrelated calls and with relocated arguments, and the slices it returned the first time are rendered again afterwards and must read the same (3: result depends only on arguments and belongs to the caller). " +
 		"'round' cases: a shared workload of ~24 calls is evaluated sequentially, then by G in {2,8,32} goroutines released together, each running keyed permutations of the workload; every result must equal the sequential one, guards and tables are re-checked; the same rounds run in a binary built with the race detector (halt_on_error), where any unsynchronised conflicting access ends the process (4). " +
 		"Non-trivial: a call whose arguments include a non-empty slice or string; a round with >= 2 goroutines sharing at least one such argument. Distinct by hash of the case.",
 	Check:    check,
@@ -82,13 +82,13 @@ func classify(c Case) (bool, []string) {
 	return c.G >= 2 && shared, labels
 }
 
-func setupCall(cl Call, g *guard) (func() string, *vk.Failure) {
+func setupCall(cl Call, g *guard) (func() []any, *vk.Failure) {
 	i, ok := funcIndex[cl.Fn]
 	if !ok {
 		vk.Infra("case names an unknown call kind: " + cl.Fn)
 		return nil, nil
 	}
-	var fn func() string
+	var fn func() []any
 	if f := vk.Try("preparing the arguments of "+cl.Fn, func() { fn = funcs[i].setup(cl.A, g) }); f != nil {
 		// index builders run during setup: a panic here is still the library's
 		f.Kind = "panic-in-setup"
@@ -97,12 +97,18 @@ func setupCall(cl Call, g *guard) (func() string, *vk.Failure) {
 	return fn, nil
 }
 
-func runCall(name string, fn func() string) (string, *vk.Failure) {
-	var r string
-	if f := vk.Try(name, func() { r = fn() }); f != nil {
-		return "", f
+func runCall(name string, fn func() []any) (string, *vk.Failure) {
+	_, r, f := runCallRaw(name, fn)
+	return r, f
+}
+
+// runCallRaw also hands back the raw results (the very slices the library returned).
+func runCallRaw(name string, fn func() []any) ([]any, string, *vk.Failure) {
+	var res []any
+	if f := vk.Try(name, func() { res = fn() }); f != nil {
+		return nil, "", f
 	}
-	return r, nil
+	return res, render(res), nil
 }
 
 func argStr(cl Call) string {
@@ -126,7 +132,7 @@ func checkCall(c Case) *vk.Failure {
 	if v := g1.verify(); v != "" {
 		return vk.Failf("argument-modified-by-index-builder", "%s(%s): building the derived arguments modified an input: %s", cl.Fn, argStr(cl), v)
 	}
-	r1, f := runCall(cl.Fn, fn1)
+	raw1, r1, f := runCallRaw(cl.Fn, fn1)
 	if f != nil {
 		return f
 	}
@@ -150,6 +156,10 @@ func checkCall(c Case) *vk.Failure {
 			return vk.Failf("argument-modified", "%s(%s) modified an argument: %s", b.Fn, argStr(b), v)
 		}
 	}
+	// what was returned belongs to the caller: it must read the same after other calls
+	if again := render(raw1); again != r1 {
+		return vk.Failf("result-changed-after-return", "the result of %s(%s) was %s when it was returned and reads %s after %d other calls (it aliases memory the library reuses)", cl.Fn, argStr(cl), clip(r1), clip(again), len(c.Batch))
+	}
 	// same live arguments again, then relocated copies
 	r2, f := runCall(cl.Fn, fn1)
 	if f != nil {
@@ -166,6 +176,9 @@ func checkCall(c Case) *vk.Failure {
 	r3, f := runCall(cl.Fn, fn3)
 	if f != nil {
 		return f
+	}
+	if again := render(raw1); again != r1 {
+		return vk.Failf("result-changed-after-return", "the result of %s(%s) was %s when it was returned and reads %s after the same call was made again", cl.Fn, argStr(cl), clip(r1), clip(again))
 	}
 	if r3 != r1 {
 		return vk.Failf("result-depends-on-location", "%s(%s) returned %s, but %s for equal arguments stored elsewhere", cl.Fn, argStr(cl), clip(r1), clip(r3))
@@ -188,7 +201,7 @@ func clip(s string) string {
 
 func checkRound(c Case) *vk.Failure {
 	g := newGuard(2)
-	fns := make([]func() string, len(c.Calls))
+	fns := make([]func() []any, len(c.Calls))
 	ref := make([]string, len(c.Calls))
 	for i, cl := range c.Calls {
 		fn, f := setupCall(cl, g)
@@ -288,6 +301,10 @@ func genOne(t *rapid.T) Call {
 
 func genCall(t *rapid.T) Case {
 	c := Case{Op: "call", Calls: []Call{genOne(t)}}
+	// the batch starts with another call of the same kind on fresh arguments (that is what would
+	// overwrite a result buffer the library keeps), followed by unrelated calls
+	same := funcs[funcIndex[c.Calls[0].Fn]]
+	c.Batch = append(c.Batch, Call{Fn: same.name, A: same.gen(t)})
 	nb := gen.Uniform(t, 5, "nbatch")
 	for i := 0; i < nb; i++ {
 		c.Batch = append(c.Batch, genOne(t))
